@@ -408,8 +408,12 @@ namespace ratio
         if (!get_sat_core().next())
             throw unsolvable_exception();
 
-        if (root_level()) // we make sure that gamma is at true..
-            gr.check();
+        if (root_level())
+        { // the search has refuted the whole graph: if there is nothing left to expand, the graph is exhausted..
+            if (get_sat_core().value(gr.gamma) == False && flaws.empty())
+                throw unsolvable_exception();
+            gr.check(); // we make sure that gamma is at true..
+        }
         assert(get_sat_core().value(gr.gamma) == True);
 
         assert(std::all_of(gr.phis.cbegin(), gr.phis.cend(), [this](const auto &v_fs)
